@@ -75,6 +75,10 @@ pub(crate) struct Circuit {
     slow_call_count: usize,
     // Time-based window tracking
     call_records: VecDeque<CallRecord>,
+    // Count-based window: outcomes (is_failure, is_slow) of the last `sliding_window_size` calls
+    count_window: VecDeque<(bool, bool)>,
+    // Calls recorded since the last state change (not capped by the window size)
+    recorded_since_change: usize,
 }
 
 impl Default for Circuit {
@@ -101,6 +105,32 @@ impl Circuit {
             total_count: 0,
             slow_call_count: 0,
             call_records: VecDeque::new(),
+            count_window: VecDeque::new(),
+            recorded_since_change: 0,
+        }
+    }
+
+    /// Slides the count-based window: remembers the new outcome and forgets the
+    /// oldest one once more than `window_size` calls have been recorded.
+    fn slide_count_window(&mut self, window_size: usize, is_failure: bool, is_slow: bool) {
+        self.recorded_since_change += 1;
+        self.count_window.push_back((is_failure, is_slow));
+        // Half-open trial accounting is not windowed.
+        if self.state == CircuitState::HalfOpen {
+            return;
+        }
+        while self.count_window.len() > window_size.max(1) {
+            if let Some((old_failure, old_slow)) = self.count_window.pop_front() {
+                if old_failure {
+                    self.failure_count -= 1;
+                } else {
+                    self.success_count -= 1;
+                }
+                if old_slow {
+                    self.slow_call_count -= 1;
+                }
+                self.total_count -= 1;
+            }
         }
     }
 
@@ -200,6 +230,7 @@ impl Circuit {
                 if is_slow {
                     self.slow_call_count += 1;
                 }
+                self.slide_count_window(config.sliding_window_size, false, is_slow);
             }
             SlidingWindowType::TimeBased => {
                 if let Some(window_duration) = config.sliding_window_duration {
@@ -279,6 +310,7 @@ impl Circuit {
                 if is_slow {
                     self.slow_call_count += 1;
                 }
+                self.slide_count_window(config.sliding_window_size, true, is_slow);
             }
             SlidingWindowType::TimeBased => {
                 if let Some(window_duration) = config.sliding_window_duration {
@@ -403,6 +435,16 @@ impl Circuit {
         self.transition_to(CircuitState::Closed, config);
     }
 
+    fn clear_window(&mut self) {
+        self.success_count = 0;
+        self.failure_count = 0;
+        self.total_count = 0;
+        self.slow_call_count = 0;
+        self.call_records.clear();
+        self.count_window.clear();
+        self.recorded_since_change = 0;
+    }
+
     fn transition_to<C>(&mut self, state: CircuitState, config: &CircuitBreakerConfig<C>) {
         if self.state == state {
             return;
@@ -452,11 +494,7 @@ impl Circuit {
         self.state = state;
         self.state_atomic.store(state as u8, Ordering::Release);
         self.last_state_change = std::time::Instant::now();
-        self.success_count = 0;
-        self.failure_count = 0;
-        self.total_count = 0;
-        self.slow_call_count = 0;
-        self.call_records.clear();
+        self.clear_window();
     }
 
     fn evaluate_window<C>(&mut self, config: &CircuitBreakerConfig<C>) {
@@ -477,13 +515,17 @@ impl Circuit {
             };
 
         // Don't evaluate until minimum calls threshold is met
-        if total_count < config.minimum_number_of_calls {
+        let recorded = match config.sliding_window_type {
+            SlidingWindowType::CountBased => self.recorded_since_change,
+            SlidingWindowType::TimeBased => total_count,
+        };
+        if recorded < config.minimum_number_of_calls {
             return;
         }
 
         // For count-based window, also check if window is full
         if config.sliding_window_type == SlidingWindowType::CountBased
-            && total_count < config.sliding_window_size
+            && recorded < config.sliding_window_size
         {
             return;
         }
